@@ -71,6 +71,30 @@ CHECKS = {
     "C15": ("Getter must read configuration-only paths (violated: F5a), setter must not overwrite the occupancy-dependent counter with its parameter (F5b), raising the limit must wake "
             "waiters (F5c), validation precedes the write with the exact comparison.",
             "effect analysis (who writes the paths the getter reads) + VALIDATE-FIRST", "5 C15", TB + "F5a-c are recorded known findings; mixed arithmetic is inconclusive, not a violation."),
+    "C16": ("Handshake sequence by completion-dominance (read, json, parser with the session's buffer and the client's width, add_subparsers, add_class_commands(run-time class), "
+            "name + newline, drain); command surface (getmembers, '_' filter with public_only default True, function/property dispatch, dash names, member stored under CMD, help enabled); "
+            "TABLE(annotation kinds at run time vs what the converter does with them) over every public member of every pool class: finding F6.",
+            "dominance on the CFG + producer/consumer table agreement (annotation kind vs converter domain)", "5 C16",
+            TB + "Declined: the bytes on the wire; help text for every width (argparse run-time behaviour). F6 is a recorded known finding."),
+    "C17": ("Dispatch structure of _exec_method_and_respond (self, positional kinds in signature order, *args after, rest by keyword, through return_or_exception), RESULT-USED at all "
+            "three return_or_exception call sites with the reply forms ok-if-None-else-str / str, add_function_arg mapping incl. the bool-defaults-to-False table over the pool classes, "
+            "return_or_exception semantics (called once, awaited under the coroutine guard, Exception returned); annotation table shared (F6).",
+            "syntax-directed structure rules + RESULT-USED data-flow + path counting", "5 C17",
+            TB + "Declined: equality of effects for every argument value (translation over run-time values). F6 shared (known finding)."),
+    "C18": ("HATCHES (all four argparse escape hatches overridden, no print/sys.std*/exit in parser, session, server; positive control in client), per-iteration protocol of listen by "
+            "typestate (one read, one command, one reply, drained), containment as three structural sub-rules (handlers around parse_args cover ArgumentError/HelpRequested/ParserError and "
+            "fall through; type wrapper lets only ArgumentTypeError/TypeError/ValueError out; pool members invoked only through return_or_exception after a successful parse), buffer isolation.",
+            "hatch/who-may rules + iteration typestate + exceptional-exit inventory", "5 C18",
+            TB + "Declined: one reply 'when the wait is over'; output of concurrent sessions (follows from per-instance state)."),
+    "C19": ("serve_forever awaits only the start-up and returns the serving task; _serve_forever runs _final_callback exactly once on every way out once serving began and absorbs "
+            "cancellation; the unix callback unlinks the path that was listened on; ALL-EXITS(_client_connected_cb => writer.close) over normal/exception/cancellation edges; listen "
+            "re-tests is_serving and leaves on EOF; client closes and clears its flag on exit/EOF.",
+            "ALL-EXITS path counting over all edge kinds + data-flow equality of paths", "5 C19",
+            TB + "Declined: everything observable only on real sockets (promptness, refusal of new connections, other sessions unaffected)."),
+    "C20": ("__aenter__ takes exactly one item and reaches no task_done on any edge (in particular the cancellation edge of the waiting get); __aexit__ reaches task_done exactly once "
+            "on every exit, before any suspension, independent of the exception arguments, and returns falsy; item_processed == one task_done; trusted primitives not overridden.",
+            "ALL-EXITS path counting over normal, exception and cancellation edges", "5 C20",
+            TB + "With the language rule '__aexit__ runs exactly once iff __aenter__ completed' and the trusted Queue.join this implies the accounting."),
 }
 
 
